@@ -29,6 +29,7 @@ RULE = ('valid configs (bindings string or file, include trees to depth 3, 3-15 
         'failure the provenance comments of the applied prefix are compared with the last-setter model. One config in eight has a root file with '
         'dynamic registration (own symbol table). Once per config: the valid config parsed successfully (provenance through includes) and parsed while '
         'the config is locked (fails at the first binding statement, nothing changes, lock stays). '
+        'Comment lines may end in characters str.splitlines() breaks at (form feed, separators); import faults include a module whose own import fails. '
         'quick samples positions, thorough enumerates every position x kind of each generated config. distinct = (config shape, position class, fault kind)')
 TIERS = {
     'quick': {'workers': 8, 'cases': 60, 'timeout': 900, 'faults_per_config': 36, 'all_positions': False},
